@@ -14,8 +14,11 @@ use std::collections::{BTreeSet, HashMap};
 pub type Clause = BTreeSet<i32>;
 
 pub fn parse_cnf(text: &str) -> (u32, Vec<Clause>) {
+    // DIMACS proper: after the problem line the file is a stream of numbers, every 0 ends a clause (several clauses may share
+    // a line, as d4 reads it)
     let mut n = 0u32;
     let mut clauses = Vec::new();
+    let mut c = Clause::new();
     for line in text.lines() {
         let line = line.trim();
         if line.is_empty() || line.starts_with('c') { continue; }
@@ -24,15 +27,23 @@ pub fn parse_cnf(text: &str) -> (u32, Vec<Clause>) {
             n = t[2].parse().unwrap();
             continue;
         }
-        let mut c = Clause::new();
         for t in line.split_whitespace() {
             let v: i32 = t.parse().unwrap();
-            if v == 0 { break; }
-            c.insert(v);
+            if v == 0 { clauses.push(std::mem::take(&mut c)); } else { c.insert(v); }
         }
-        clauses.push(c);
     }
     (n, clauses)
+}
+
+/// the same clause list in another legal layout: now and then two clauses share a line
+pub fn cnf_text_layout(n: u32, clauses: &[Clause], pair_every: usize) -> String {
+    let mut s = format!("p cnf {} {}\n", n, clauses.len());
+    for (i, c) in clauses.iter().enumerate() {
+        for l in c { s.push_str(&format!("{} ", l)); }
+        s.push('0');
+        s.push(if pair_every > 0 && i % pair_every == 0 && i + 1 < clauses.len() { ' ' } else { '\n' });
+    }
+    s
 }
 
 pub fn cnf_text(n: u32, clauses: &[Clause]) -> String {
